@@ -13,6 +13,7 @@ import (
 	"os"
 	"os/exec"
 	"path/filepath"
+	"runtime/pprof"
 	"sort"
 	"strconv"
 	"strings"
@@ -119,6 +120,10 @@ func Start(id, level string) *Run {
 		}
 	}
 	r.dead = r.start.Add(budget)
+	if pf := os.Getenv("VERIF_PPROF"); pf != "" && !r.isChild {
+		f, _ := os.Create(pf)
+		pprof.StartCPUProfile(f)
+	}
 	return r
 }
 
@@ -437,6 +442,7 @@ func (r *Run) Finish() {
 		os.Exit(0)
 	}
 	wall := time.Since(r.start).Seconds()
+	pprof.StopCPUProfile()
 	var kf knownFile
 	if b, err := os.ReadFile(filepath.Join(Root(), "known_findings.json")); err == nil {
 		if err := json.Unmarshal(b, &kf); err != nil {
